@@ -81,9 +81,18 @@ def rand_patterns(rng, tree, input_abs_hint="in"):
     if dirs and rng.random() < 0.35:
         rel, n = rng.choice(dirs)
         if rng.random() < 0.5:
-            pats.append(rel[-1] + "/*.cmake")
+            # a pattern with a path component: matches the files' full paths, never their bare names
+            # (the unanchored spelling dir/*.cmake is anchored by its inner slash and matches nothing
+            # against the absolute paths CMinx asks about; kept as a non-matching pattern)
+            pats.append(rng.choice(["**/" + rel[-1] + "/*.cmake", "/".join(("**",) + tuple(rel)) + "/*.cmake",
+                                    "**/" + rel[-1] + "/*.cmake", rel[-1] + "/*.cmake"]))
         else:
             pats += [c["name"] for c in n["children"] if c["kind"] == "f" and is_cmake(c["name"])]
+    # a directory-only pattern naming an existing sub-directory (at any depth)
+    only_dirs = [(rel, n) for rel, n in nodes if n["kind"] == "d"]
+    if only_dirs and rng.random() < 0.25:
+        rel, n = rng.choice(only_dirs)
+        pats.append(rel[-1] + "/")
     # several patterns matching adjacent siblings
     if rng.random() < 0.4:
         sibs = [c["name"] for c in tree][:]
@@ -134,7 +143,7 @@ def gen_case(rng, patterns_p=0.0, single_p=0.1, out_modes=("abs", "abs", "rel", 
     c["ext_modules"] = rng.random() < 0.25
     c["headers"] = rng.choice([None, None, None, ["=", "-"], ["*"], ["~", "^", "+"]])
     c["out"] = rng.choice(out_modes)
-    if c["out"] == "nested" and ("tree" not in c or not c["auto_exclude"]):
+    if c["out"] == "nested" and "tree" not in c:
         c["out"] = "abs"
     c["spelling"] = rng.choice(["abs", "rel", "dotslash", "trailing", "dot"] if "tree" in c else ["abs", "rel", "dotslash"])
     c["cwd"] = rng.choice(["parent", "parent", "elsewhere", "inside"])
@@ -143,6 +152,10 @@ def gen_case(rng, patterns_p=0.0, single_p=0.1, out_modes=("abs", "abs", "rel", 
         k = rng.randint(0, len(pats))
         c["patterns_cli"] = pats[:k]
         c["patterns_cfg"] = pats[k:]
+        if any(p.endswith("/") for p in pats) and rng.random() < 0.4:
+            # directory-only patterns are the only thing that removes a directory when auto-exclusion is off
+            c["auto_exclude"] = False
+            c["recursive"] = True
     if rng.random() < 0.15:
         c["flags"] = {"function": False, "macro": rng.random() < 0.5, "option": False}
     return c
